@@ -594,8 +594,116 @@ func loadScenario() explore.Scenario {
 	}
 }
 
+// ---------------------------------------------------------------- reopened store: concurrent first use
+
+// preloaded is a backing store that already holds resources (a "reopened" store); Load hands them over
+// one by one with a scheduling point in between, Put/Destroy are recorded.
+type preloaded struct {
+	hx.Log
+	content []resource.Resource
+}
+
+func (p *preloaded) Load(_ context.Context, h inmem.LoadHandler) error {
+	for _, r := range p.content {
+		vrt.Yield()
+		if err := h(r.Metadata().Type(), r.DeepCopy()); err != nil {
+			return err
+		}
+	}
+	return nil
+}
+
+var firstUseOps = []string{"get a", "get b", "list", "create a", "update b", "destroy a"}
+
+func firstUse(ctx context.Context, st state.State, op string) string {
+	switch op {
+	case "get a", "get b":
+		r, err := st.Get(ctx, hx.IntPtr(strings.TrimPrefix(op, "get ")))
+		if err != nil {
+			return hx.ErrClass(err)
+		}
+		return hx.Snap(r)
+	case "list":
+		l, err := st.List(ctx, hx.IntKind())
+		if err != nil {
+			return hx.ErrClass(err)
+		}
+		return hx.SnapList(l)
+	case "create a":
+		return hx.ErrClass(st.Create(ctx, conformance.NewIntResource(hx.NS, "a", 100)))
+	case "update b":
+		_, err := st.UpdateWithConflicts(ctx, hx.IntPtr("b"), func(r resource.Resource) error {
+			r.(*conformance.IntResource).SetValue(r.(*conformance.IntResource).Value() + 1)
+			return nil
+		})
+		return hx.ErrClass(err)
+	case "destroy a":
+		return hx.ErrClass(st.Destroy(ctx, hx.IntPtr("a")))
+	}
+	panic(op)
+}
+
+func stored() []resource.Resource {
+	mk := func(id string, v, ver int) resource.Resource {
+		r := conformance.NewIntResource(hx.NS, id, v)
+		vv, _ := resource.ParseVersion(fmt.Sprint(ver))
+		r.Metadata().SetVersion(vv)
+		return r
+	}
+	return []resource.Resource{mk("a", 1, 3), mk("b", 2, 5), mk("c", 3, 1)}
+}
+
+func firstUseScenario(a, b string, bounds []int) explore.Scenario {
+	return explore.Scenario{
+		Name:   fmt.Sprintf("reopen/concurrent-first-use/%s || %s", a, b),
+		Desc:   fmt.Sprintf("a reopened state whose backing store holds 3 acknowledged resources is first used by two goroutines at once (%s, %s) while the lazy load is in progress: every schedule; each operation must behave as on a fully loaded state in one of the two orders (no not-found for an acknowledged resource, no re-creation of a persisted id)", a, b),
+		Bounds: bounds,
+		Body: func(x *explore.X) {
+			ctx := context.Background()
+			run := func(order []string, concurrent bool) ([]string, string) {
+				ps := &preloaded{content: stored()}
+				core := inmem.NewStateWithOptions(inmem.WithBackingStore(ps))(hx.NS)
+				st := state.WrapCore(core)
+				res := make([]string, len(order))
+				if concurrent {
+					for i, op := range order {
+						vrt.GoNamed("user:"+op, func() { res[i] = firstUse(ctx, st, op) })
+					}
+					vrt.WaitQuiescent()
+				} else {
+					for i, op := range order {
+						res[i] = firstUse(ctx, st, op)
+					}
+				}
+				l, _ := core.List(ctx, hx.IntKind())
+				return res, hx.SnapList(l)
+			}
+			vrt.Branching(false)
+			r1, f1 := run([]string{a, b}, false)
+			r2, f2 := run([]string{b, a}, false)
+			vrt.Branching(true)
+			got, fg := run([]string{a, b}, true)
+			okAB := got[0] == r1[0] && got[1] == r1[1] && fg == f1
+			okBA := got[0] == r2[1] && got[1] == r2[0] && fg == f2
+			if !okAB && !okBA {
+				x.Failf("first use of a reopened store raced with the lazy load: %q -> %q, %q -> %q, final {%s}; sequentially: (%s then %s) gives %q %q {%s}, (%s then %s) gives %q %q {%s}", a, got[0], b, got[1], fg, a, b, r1[0], r1[1], f1, b, a, r2[1], r2[0], f2)
+			}
+			x.Outcome("%s|%s", got[0], got[1])
+		},
+	}
+}
+
 func build(tier string) []explore.Scenario {
 	var out []explore.Scenario
+	fb := []int{0, 1}
+	if tier == "thorough" {
+		fb = []int{0, 1, 2, -1}
+	}
+	for i, a := range firstUseOps {
+		for _, b := range firstUseOps[i:] {
+			out = append(out, firstUseScenario(a, b, fb))
+		}
+	}
 	hists := [][]int{{0, 1, 2, 3}, {0, 4, 2, 3}, {4, 0, 3, 0}, {0, 1, 4, 5}, {5, 0, 2, 4}, {0, 3, 0, 1}}
 	if tier == "thorough" {
 		hists = nil
